@@ -697,7 +697,10 @@ def rule_f(ck, u):
                     else:
                         nes.add(c[3][1])
             if origin is None:
-                origin = 'unknown' if nes >= set(cls_name) else None
+                # everything that is none of the named classes is "unknown", whether the code says so by a default arm
+                # after all cases, by comparing with LOOKING_AT_UNKNOWN, or by the last else of a chain
+                named = set(k for k, v in cls_name.items() if v != 'unknown')
+                origin = 'unknown' if nes >= named else None
             if origin is None:
                 raise _Shape('token path without classification')
         base, f = fields(p.ret)
